@@ -216,9 +216,40 @@ def term_str(v):
 # --------------------------------------------------------------------------
 # program facts
 
+SHIM_MAP = {
+    # library function (generic def path) -> safe stand-in in /verif/shims/src/lib.rs
+    'core::slice::<impl [T]>::iter': 'slice_iter',
+    "<core::slice::Iter<'a, T> as core::iter::Iterator>::next": 'iter_next',
+    "<core::slice::Iter<'a, T> as core::iter::Iterator>::find": 'iter_find',
+    "<core::slice::Iter<'a, T> as core::iter::Iterator>::find_map": 'iter_find_map',
+    "<core::slice::Iter<'a, T> as core::iter::Iterator>::position": 'iter_position',
+    "<core::slice::Iter<'a, T> as core::iter::Iterator>::any": 'iter_any',
+    "<core::slice::Iter<'a, T> as core::iter::Iterator>::all": 'iter_all',
+    '<usize as core::slice::SliceIndex<[T]>>::get': 'slice_get_usize',
+    'core::slice::<impl [T]>::contains': 'slice_contains',
+    'core::slice::<impl [T]>::binary_search_by': 'binary_search_by',
+}
+_SHIM_FACTS = None
+
+
+def load_shim_facts():
+    global _SHIM_FACTS
+    if _SHIM_FACTS is None:
+        import json, os
+        p = os.path.join(os.path.dirname(os.path.dirname(os.path.abspath(__file__))), 'shims', 'facts.json')
+        try:
+            with open(p) as f:
+                _SHIM_FACTS = json.load(f)
+        except OSError:
+            _SHIM_FACTS = {}
+    return _SHIM_FACTS
+
+
 class Program:
     def __init__(self, facts):
         self.facts = facts
+        sh = load_shim_facts()
+        self.shim_fns = {f['path']: dict(f, path='shim::' + f['path'], shim=True) for f in sh.get('fns', [])}
         self.fns = {}
         for f in facts['fns']:
             if f['path'] in self.fns:
@@ -232,7 +263,17 @@ class Program:
                 self.ext_generic.setdefault(f['path'], f)
             else:
                 self.ext_fns.setdefault(f['path_inst'], f)
+        self.ext_by_path = {}
+        for f in list(self.ext_fns.values()):
+            self.ext_by_path.setdefault(f['path'], []).append(f)
+        for f in sh.get('ext_fns', []):      # library callees of the shims themselves
+            if f.get('generic'):
+                self.ext_generic.setdefault(f['path'], f)
+            else:
+                self.ext_fns.setdefault(f['path_inst'], f)
         self.adts = {}
+        for a in sh.get('adts', []) + sh.get('ext_adts', []):
+            self.adts.setdefault(a['path'], a)
         for a in facts['adts'] + facts.get('ext_adts', []):
             self.adts[a['path']] = a
         self._fieldless = {}
@@ -545,6 +586,27 @@ class Engine:
         fields[step[1]] = self.set_path(fields[step[1]], path[1:], new, st)
         return ('adt', v[1], v[2], tuple(fields))
 
+    def unique_value(self, v, st, limit=70000):
+        """If scalar v takes the same value for every valuation in the current class, that value."""
+        import itertools
+        names = atoms_in(v)
+        n = 1
+        for a in names:
+            d = st.doms.get(a)
+            if d is None:
+                return None
+            n *= len(d)
+            if n > limit:
+                return None
+        seen = None
+        for vals in itertools.product(*[sorted(st.doms[a]) for a in names]):
+            r = ev(v, dict(zip(names, vals)))
+            if seen is None:
+                seen = r
+            elif r != seen:
+                return None
+        return seen
+
     # ---------------------------------------------------------------- places
     def resolve_place(self, pl, st, fr):
         cell = ('L', fr.uid, pl['l'])
@@ -567,7 +629,10 @@ class Engine:
                 if iv is None or not is_scalar(iv):
                     raise Undecided('array index is not a scalar')
                 if iv[0] != 'c':
-                    raise NeedSplit(iv)
+                    only = self.unique_value(iv, st)
+                    if only is None:
+                        raise NeedSplit(iv)
+                    iv = C(only, tk_of(iv))
                 path = path + (('i', iv[1]),)
             elif k == 'cindex' and not e.get('from_end'):
                 path = path + (('i', e['i']),)
@@ -719,6 +784,10 @@ class Engine:
             cell, path = self.resolve_place(rv['pl'], st, fr)
             if rv['mut'] and cell[0] == 'H':
                 st.events.append(('mutborrow', cell, path, sp, fr.fn['path']))
+            return ('ref', cell, path)
+        if k == 'rawptr':
+            # `&raw const place`: only ever used here to read slice metadata / re-derive a reference
+            cell, path = self.resolve_place(rv['pl'], st, fr)
             return ('ref', cell, path)
         if k == 'bin':
             a = self.simp(self.operand(rv['a'], st, fr), st)
@@ -1100,6 +1169,15 @@ class Engine:
         """Run the body of local closure `cpath` with captured environment `env` (the closure value or a
         reference to it) on already untupled `args`."""
         callee = self.prog.fns.get(cpath)
+        if callee is None:
+            # a closure defined inside an inlined library function
+            cands = self.prog.ext_by_path.get(cpath, [])
+            if len(cands) == 1:
+                callee = cands[0]
+            elif cpath in self.prog.ext_generic:
+                callee = self.prog.ext_generic[cpath]
+            elif cands:
+                raise Undecided('ambiguous library closure instance ' + cpath, t['sp'])
         if callee is None or callee.get('kind') != 'Closure':
             raise Undecided('call of unknown closure ' + cpath, t['sp'])
         want_ref = callee['body']['locals'][1]['ty'].get('k') == 'ref'
@@ -1183,6 +1261,20 @@ class Engine:
                 return self.invoke(nfn, [vals[0][1]] + vals[1:], argtys, t, st, fr, work, leaves, depth + 1)
         # ---- a trait-method call the compiler could not resolve in generic code, on a receiver whose
         #      concrete type is known to the interpreter: resolve through the crate's impl index
+        if res is None and fn.get('trait') in ('core::cmp::PartialEq', 'core::cmp::PartialOrd', 'core::cmp::Ord') and len(vals) == 2:
+            xs = []
+            for v in vals:
+                hops = 0
+                while v is not None and v[0] == 'ref' and hops < 4:
+                    v = self.get_path(st.store.get(v[1]), v[2], st)
+                    hops += 1
+                xs.append(self.simp(v, st) if v is not None and is_scalar(v) else None)
+            op = {'eq': 'Eq', 'ne': 'Ne', 'lt': 'Lt', 'le': 'Le', 'gt': 'Gt', 'ge': 'Ge', 'cmp': 'Cmp'}.get(fn.get('method'))
+            if xs[0] is not None and xs[1] is not None and op and tk_of(xs[0]) == tk_of(xs[1]) and tk_of(xs[0])[2:] not in DISCR:
+                if op == 'Cmp':
+                    self.prog.is_fieldless_enum('core::cmp::Ordering')
+                    return ret(T('Cmp', (xs[0], xs[1]), 'E:core::cmp::Ordering'))
+                return ret(T(op, (xs[0], xs[1]), 'bool'))
         if res is None and fn.get('trait') is not None and fn.get('trait') not in self.FN_TRAITS and vals:
             v = vals[0]
             hops = 0
@@ -1196,11 +1288,16 @@ class Engine:
                            'resolved': {'path': impl_fn, 'path_inst': impl_fn, 'local': True, 'kind': 'item'}}
                     return self.invoke(nfn, vals, argtys, t, st, fr, work, leaves, depth + 1)
         target = None
+        if path is not None and res['local'] and fr.fn.get('shim') and path in prog.shim_fns:
+            return self.push_frame(prog.shim_fns[path], vals, t, st, fr)
         if path is not None and path in prog.fns and res['local']:
             target = path
         # ---- inlining of local callees (incl. closures) and of monomorphised library bodies
         callee = None
-        if target is not None and target not in self.opaque:
+        if target is None and path in SHIM_MAP and SHIM_MAP[path] in prog.shim_fns and path not in self.opaque:
+            callee = prog.shim_fns[SHIM_MAP[path]]
+            self.stats['shim_calls'] = self.stats.get('shim_calls', 0) + 1
+        elif target is not None and target not in self.opaque:
             callee = prog.fns[target]
         elif target is None and res is not None and self.use_ext and res.get('kind') == 'item':
             ef = prog.ext_fns.get(res['path_inst']) or prog.ext_generic.get(res['path'])
